@@ -7,7 +7,7 @@ import operator
 from typing import Any, Dict, List, Optional
 
 from .absint import (CutoffSig, EXT_CONST, Infeasible, RaiseSig, Unsupported, fact_feasible)
-from .values import (C, FALSE, INF, NONE, TOP, TRUE, App, Bound, Cls, Ext, Fact, Fn, HDict, HList, HObj,
+from .values import (C, FALSE, INF, NONE, TOP, TRUE, App, Bound, Cls, Ext, Fact, Fn, HDict, HList, HObj, Lam,
                      Ref, Sym, Tup, Value, concat)
 
 # ---------------------------------------------------------------- truthiness
@@ -30,7 +30,7 @@ def truth(I, run, v: Value, node, fork=True) -> Optional[bool]:
                 return False
             return _memo_bool(I, run, ("truth", v.key()), node, f"{I.describe(run, v)} non-empty", fork)
         return True
-    if isinstance(v, (Fn, Bound, Cls)):
+    if isinstance(v, (Fn, Bound, Cls, Lam)):
         return True
     if isinstance(v, Ext):
         if v.name in EXT_CONST:
@@ -486,6 +486,61 @@ def _as_const(v):
     return v
 
 
+def _percent_template(I, run, fmt: str, arg: Value, node):
+    """'%s?%s' % (a, b) -> the same template an f-string would give; None for anything but plain %s / %d / %% directives."""
+    import re as _re
+    parts = _re.split(r"(%[sd%])", fmt)
+    if any("%" in p and p not in ("%s", "%d", "%%") for p in parts):
+        return None
+    args = list(arg.items) if isinstance(arg, Tup) else [arg]
+    out, i = [], 0
+    for p in parts:
+        if p == "%%":
+            out.append(C("%"))
+        elif p in ("%s", "%d"):
+            if i >= len(args):
+                return None
+            out.append(to_str(I, run, args[i], None, node))
+            i += 1
+        elif p:
+            out.append(C(p))
+    if i != len(args):
+        return None
+    return concat(out, "str")
+
+
+def _format_template(I, run, fmt: str, args, kwargs, node):
+    """'{}:{}'.format(a, b) with plain positional / numbered / named fields -> template; None otherwise."""
+    import string as _string
+    out, auto = [], 0
+    try:
+        fields = list(_string.Formatter().parse(fmt))
+    except ValueError:
+        return None
+    for lit, field, spec, conv in fields:
+        if lit:
+            out.append(C(lit))
+        if field is None:
+            continue
+        if spec or (conv not in (None, "s")):
+            return None
+        if field == "":
+            if auto >= len(args):
+                return None
+            v = args[auto]
+            auto += 1
+        elif field.isdigit():
+            if int(field) >= len(args):
+                return None
+            v = args[int(field)]
+        elif field in kwargs:
+            v = kwargs[field]
+        else:
+            return None
+        out.append(to_str(I, run, v, None, node))
+    return concat(out, "str")
+
+
 def _rng(run, v):
     if _num(v):
         return (v.v, v.v)
@@ -534,6 +589,10 @@ def binop(I, run, op, a: Value, b: Value, node) -> Value:
                 if (ka in (k, None)) and (kb in (k, None)):
                     return concat([a, b], k)
                 I.raise_builtin(run, "TypeError", node, C(f"cannot concatenate {ka} and {kb}"))
+    if name == "%" and isinstance(a, C) and isinstance(a.v, str):
+        t = _percent_template(I, run, a.v, b, node)
+        if t is not None:
+            return t
     if name == "%" and ka == "str":
         return App("%", (a, b), "str")
     if name == "*" and isinstance(a, Tup) and isinstance(b, C) and isinstance(b.v, int):
@@ -792,6 +851,9 @@ def call_cmethod(I, run, recv: Value, name: str, args: List[Value], kwargs, node
                 pk = {k: _val_to_py(run, v) for k, v in kwargs.items()}
             except ValueError:
                 if name == "format":
+                    t = _format_template(I, run, recv.v, args, kwargs, node) if isinstance(recv.v, str) else None
+                    if t is not None:
+                        return t
                     return App("format", (recv,) + tuple(args), "str")
                 return App("m:" + name, (recv,) + tuple(args), _method_kind(name, recv.kind))
             try:
@@ -972,6 +1034,8 @@ def call(I, run, fn: Value, args: List[Value], kwargs: Dict[str, Value], node) -
         if q in cfg.no_inline:
             return external(I, run, q, args, kwargs, node)
         return I.inline(run, fn, args, kwargs, node)
+    if isinstance(fn, Lam):
+        return I.call_lambda(run, fn, args, kwargs, node)
     if isinstance(fn, Cls):
         q = fn.qualname
         if q in cfg.stubs:
@@ -1255,7 +1319,7 @@ def _b_bool(I, run, args, kwargs, node):
 
 def _b_callable(I, run, args, kwargs, node):
     v = I.resolve(run, args[0])
-    if isinstance(v, (Fn, Bound, Cls)):
+    if isinstance(v, (Fn, Bound, Cls, Lam)):
         return TRUE
     if isinstance(v, (C, Tup)):
         return FALSE
